@@ -267,3 +267,70 @@ def r3(ctx):
     outs2 = ctx.count_paths(Ix.explore(body))
     cx = [next(c for c in o.run.heap.values() if getattr(c, "label", "") == "ctx").fields.get("verify_mode") for o in outs2 if o.kind == "return"]
     ctx.ob(f"{Q}:caller-option-wins-over-default", cx == [NONE_], f"verify_mode with cert_reqs=CERT_NONE: {cx!r}", ctx.index.loc(ctx.index.func(Q).node))
+
+
+@rule("R-C11-4", min_instances=3, title="no fail-open, no carry-over: an unloadable pinned CA aborts the connection, and a relaxation given for one connection does not leak into the next (two connections in one process)")
+def r4(ctx):
+    from ..absint import RaiseSig
+    from ..values import HObj
+    loc = ctx.index.loc(ctx.index.func(Q).node)
+    # (a) the trust-store call fails (missing / unreadable / non-PEM file): the error propagates, nothing is wrapped
+    for exc in ("builtins.FileNotFoundError", "ssl.SSLError"):
+        I = _interp(ctx, None)
+
+        def failing(I_, run, args, kwargs, node, exc=exc):
+            run.effect("ctx.load_verify_locations", args, kwargs, node=node)
+            raise RaiseSig(run.alloc(HObj(exc, {"args": Tup(())})), node)
+
+        I.cfg.stubs["ctx.load_verify_locations"] = failing
+
+        def body(run):
+            d = {"ca_certs": Sym("opt.ca_certs", "str")}
+            run.fact(Sym("opt.ca_certs", "str")).truth = True
+            run.assume_range(App("len", (Sym("opt.ca_certs", "str"),), "int"), 1, float("inf"))
+            run.fact(Sym("opt.ca_certs", "str")).excl.update([None, ""])
+            return I.call(run, I.make_fn(run, Q), [Sym("rawsock", "obj"), new_dict(run, d, False, "user_sslopt"), Sym("url.host", "str")], {}, None)
+
+        outs = ctx.count_paths(I.explore(body))
+        if not any(e.name == "ctx.load_verify_locations" for o in outs for e in o.effects):
+            raise AnalysisError("the pinned CA is never loaded in this exploration")
+        bad = [o for o in outs if o.kind != "raise" or any(e.name.endswith((".wrap_socket", ".load_default_certs")) for e in o.effects)]
+        name = exc.split(".")[-1]
+        ctx.ob(f"{Q}:pinned-ca-unloadable:{name}", not bad and bool(outs), "the error propagates; no TLS session is attempted" if not bad else
+               f"load_verify_locations() for the pinned CA raises {name}: the call ends as {bad[0].kind} {bad[0].exc_class or ''} after "
+               f"{[e.name for e in bad[0].effects if e.name.startswith('ctx.')]} -- it falls back to another trust store instead of aborting (fail-open)", loc,
+               {"path": path_text(bad[0])} if bad else None)
+    # (b) two connections in one run: check_hostname=False for the first only
+    I = _interp(ctx, None)
+
+    def body2(run):
+        fn = I.make_fn(run, Q)
+        I.call(run, fn, [Sym("rawsock1", "obj"), new_dict(run, {"check_hostname": FALSE}, False, "sslopt1"), Sym("url.host", "str")], {}, None)
+        run.memo["@second_from"] = len(run.effects)
+        return I.call(run, fn, [Sym("rawsock2", "obj"), new_dict(run, {}, False, "sslopt2"), Sym("url.host", "str")], {}, None)
+
+    outs = ctx.count_paths(I.explore(body2))
+    bad = None
+    n = 0
+    for o in outs:
+        if o.kind != "return":
+            bad = bad or (f"{o.kind} {o.exc_class}", o)
+            continue
+        n += 1
+        k = o.run.memo.get("@second_from", 0)
+        ctxs = [c for a, c in sorted(o.run.heap.items()) if getattr(c, "label", "") == "ctx"]
+        built_again = any(e.name == "SSLContext" for e in o.effects[k:])
+        used = ctxs[-1] if (built_again and ctxs) else (ctxs[0] if ctxs else None)
+        if used is None or used.fields.get("check_hostname") != TRUE or used.fields.get("verify_mode") != REQ:
+            bad = bad or (f"second connection (default options) is wrapped with check_hostname={used.fields.get('check_hostname') if used else None!r}, "
+                          f"verify_mode={used.fields.get('verify_mode') if used else None!r}" + ("" if built_again else " on the context built for the first connection"), o)
+    ctx.ob(f"{Q}:second-connection-has-its-own-settings", bad is None and n > 0, f"{n} paths: each connection's context carries that connection's options" if bad is None else
+           f"after a connection with check_hostname=False, the {bad[0]}: the relaxation leaks into a connection that did not ask for it", loc,
+           {"path": path_text(bad[1])} if bad else None)
+
+
+@rule("R-C11-5", min_instances=5, title="a TLS context is built per connection: no function keeps one (or anything else) in class-level / module-level mutable state")
+def r5(ctx):
+    from .c12 import r9 as no_hidden_sharing
+    no_hidden_sharing(ctx)
+
